@@ -29,27 +29,36 @@ func (c *CompileErrorList) Error() string {
 
 	s := ""
 	for _, e := range c.Errors {
-		lnPad := int(math.Log10(float64(e.EndL))) + 1 // line number padding
+		lnPad := 1 // line number padding
+		if e.EndL > 0 {
+			lnPad = int(math.Log10(float64(e.EndL))) + 1
+		}
 		// error indicator
 		s += fmt.Sprintf("%v error:%v:%v\n", aurora.Red("-->"), e.StartL, e.StartC)
 		// initial empty line
 		s += fmt.Sprintf("%v %v\n", strings.Repeat(" ", lnPad), txtBarGood)
 		// offending lines
 		for l := e.StartL; l <= e.EndL; l++ { // "print fail"
+			if l < 1 || l > len(lines) {
+				// positions come from the lexer, which does not split lines the way this
+				// renderer does (lone \r, \r\r\n): never index outside the text
+				continue
+			}
 			line := lines[l-1]
 			before := ""
 			after := ""
 			start := 0
 			if l == e.StartL {
-				before = line[:e.StartC]
-				line = line[e.StartC:]
-				start = e.StartC
+				start = clamp(e.StartC, 0, len(line))
+				before = line[:start]
+				line = line[start:]
 			}
 			if l == e.EndL {
 				idx := e.EndC - start + 1
 				if idx >= len(line) { // because newline was erased
 					idx = len(line) - 1
 				}
+				idx = clamp(idx, 0, len(line))
 				after = line[idx:]
 				line = line[:idx]
 			}
@@ -58,15 +67,21 @@ func (c *CompileErrorList) Error() string {
 				aurora.BrightBlack(before), line, aurora.BrightBlack(after))
 		}
 		// message
-		start := strings.IndexFunc(lines[e.EndL-1], func(r rune) bool {
-			return r != ' '
-		})
+		start := 0
+		if e.EndL >= 1 && e.EndL <= len(lines) {
+			start = strings.IndexFunc(lines[e.EndL-1], func(r rune) bool {
+				return r != ' '
+			})
+		}
 		span := e.EndC - start + 1
 		if e.StartL == e.EndL {
 			start = e.StartC
 			span = e.EndC - e.StartC
 		}
-		if span == 0 {
+		if start < 0 {
+			start = 0
+		}
+		if span <= 0 {
 			span = 1
 		}
 		s += fmt.Sprintf("%v %v %v%v %v\n",
@@ -77,6 +92,16 @@ func (c *CompileErrorList) Error() string {
 			e.Msg)
 	}
 	return s
+}
+
+func clamp(v, lo, hi int) int {
+	if v < lo {
+		return lo
+	}
+	if v > hi {
+		return hi
+	}
+	return v
 }
 
 type ErrorListener struct {
